@@ -39,6 +39,16 @@ def run(ctx):
         if ra is not None and rb is not None:
             fam.append((ra, rb))
             regs += [ra, rb]
+    # a marker and its negation share one interned node and differ in the complement bit only
+    for t in ("os_name == 'posix'", "sys_platform == 'linux' and os_name == 'posix'", "'nt' in os_name", "os_name in 'posix nt'", "extra == 'a'",
+              "python_full_version >= '3.8'", "implementation_name < 'b' or extra != 'x'"):
+        ra, _ = sess.parse(t)
+        if ra is None:
+            continue
+        rb, _ = sess.op('not', ra)
+        if rb is not None:
+            fam.append((ra, rb))
+            regs += [ra, rb]
     cmds, meta = [], []
     n = 1500 if quick else 8000
     rels = {}
